@@ -421,7 +421,7 @@ pub mod __verif {
             stack: &[Enc],
             cap: usize,
         ) -> Self {
-            let mut nodes = Vec::with_capacity(cap.max(stack.len()));
+            let mut nodes = Vec::with_capacity(cap);
             for e in stack {
                 nodes.push(dec(*e));
             }
@@ -447,7 +447,7 @@ pub mod __verif {
             stack: &[Enc],
             cap: usize,
         ) -> Self {
-            let mut nodes = Vec::with_capacity(cap.max(stack.len()));
+            let mut nodes = Vec::with_capacity(cap);
             for e in stack {
                 nodes.push(dec(*e));
             }
